@@ -8,8 +8,9 @@ WT=/tmp/sr-$NAME
 git -C /repo worktree remove --force $WT 2>/dev/null; rm -rf $WT
 git -C /repo worktree add --detach -f $WT ${BASE:-HEAD} >/dev/null 2>&1 || { echo "cannot create worktree $WT"; exit 9; }
 ( cd $WT && { git apply "$P" 2>/dev/null || git apply -3 "$P" 2>/dev/null || patch -p1 -s -F3 < "$P"; } ) || { echo "PATCH $NAME DOES NOT APPLY"; git -C /repo worktree remove --force $WT; exit 8; }
+mkdir -p $WT/.evidence
 for c in "$@"; do
-  out=$(cd /verif && FJV_REPO=$WT timeout 3000 /venv/bin/python -m checks.$c --tier ${TIER:-quick} 2>&1); rc=$?
+  out=$(cd /verif && FJV_REPO=$WT FJV_EVIDENCE_DIR=$WT/.evidence timeout 3000 /venv/bin/python -m checks.$c --tier ${TIER:-quick} 2>&1); rc=$?
   nv=$(echo "$out" | grep -c '^VIOLATION')
   echo "seed=$NAME check=$c rc=$rc violation_lines=$nv :: $(echo "$out" | grep '^\[' | tail -1 | cut -c1-160)"
   echo "$out" | grep -A1 '^VIOLATION' | head -4
